@@ -98,6 +98,11 @@ func (x *Exec) callStatic(f *Frame, st *State, ins ssa.Instruction, fn *ssa.Func
 		return m.apply(f, st, ins, args)
 	}
 	sp := x.specFor(fn)
+	if sp != nil && sp.Flags["toplevel"] {
+		// a contract that states a property of the function for well-formed inputs (a dispatch
+		// never ends in a compile error, ...) is verified but not used, or demanded, at call sites
+		sp = nil
+	}
 	if sp != nil && !sp.Flags["inline"] && clo == nil {
 		return x.callByContract(f, st, ins, fn, sp, args)
 	}
